@@ -57,6 +57,37 @@ def capacity_gate(lf, year, cg, res):
         guard = None
         witness = None
         unknown = False
+        via = {}
+        summ_opt = {}
+        def refuses(name, depth=0):
+            # line `name` has no value path at all with count > rows (and does refuse somewhere)
+            if name not in summ:
+                if not name.startswith(cg['form'] + '.'):
+                    return False
+                try:
+                    f2 = cat.field(name)
+                except Exception:
+                    return False
+                ps2, complete2 = summary.summarise(cat, f2, int_bound=rows + 2, cents=True)[::2]
+                summ_opt[name] = (ps2, complete2)
+                res['unit_paths'] = res.get('unit_paths', 0) + len(ps2)
+            ps2, complete2 = summ.get(name) or summ_opt[name]
+            if not complete2 or any(q.kind in ('cut', 'unsupported') or q.unknown for q in ps2):
+                return False
+            if not any(q.kind == 'not_implemented' for q in ps2):
+                return False
+            for q in ps2:
+                if q.kind != 'value':
+                    continue
+                s2 = z3.Solver()
+                s2.set('timeout', 20000)
+                for c in list(q.conds) + list(q.assumes) + [over]:
+                    s2.add(tm.to_z3(c))
+                res['unit_queries'] = res.get('unit_queries', 0) + 1
+                if str(s2.check()) != 'unsat':
+                    return False
+            return True
+
         for lname, (ps, complete) in sorted(summ.items()):
             if not complete or any(p.kind in ('cut', 'unsupported') or p.unknown for p in ps):
                 unknown = True
@@ -64,6 +95,11 @@ def capacity_gate(lf, year, cg, res):
             sat_here = False
             for p in ps:
                 if p.kind != 'value':
+                    continue
+                # a value path that reads a line of the same form which itself refuses
+                # every count > rows cannot complete in a solved return either
+                if any(kind == 'read_line' and nm2 != lname and nm2 not in summ and refuses(nm2) for kind, nm2, _ in p.reads):
+                    via[lname] = [nm2 for kind, nm2, _ in p.reads if kind == 'read_line' and nm2 in summ_opt and refuses(nm2)][:1]
                     continue
                 s = z3.Solver()
                 s.set('timeout', 20000)
@@ -81,13 +117,13 @@ def capacity_gate(lf, year, cg, res):
                     unknown = True
                     sat_here = True
                     break
-            if not sat_here and any(p.kind == 'not_implemented' for p in ps):
+            if not sat_here and (any(p.kind == 'not_implemented' for p in ps) or via.get(lname)):
                 guard = lname
                 break
         dt = time.time() - t1
         desc = 'unit level, %s symbolic in 0..%d, all other reads free: some required line of %s has no value path with count > %d' % (cname, rows + 2, cg['form'], rows)
         if guard is not None:
-            res['obl'].append((nm, 'unsat', dt, desc + ' [guarding line: %s]' % guard))
+            res['obl'].append((nm, 'unsat', dt, desc + ' [guarding line: %s%s]' % (guard, (' via ' + via[guard][0]) if via.get(guard) else '')))
             # reachability twin: the guarding line does have a value path within capacity
             ps = summ[guard][0]
             ok = False
